@@ -43,6 +43,15 @@ def cfg_for(module, tier):
     return base + ("_thorough.cfg" if tier == "thorough" else ".cfg")
 
 
+def spec_mutant(inv, run):
+    """Non-vacuity of step M: TLC must refute the named mutant invariant of MC_CPR.tla."""
+    r = core.tlc("mc/MC_CPR", cfg=f"mc/MC_CPR_mutant_{inv}.cfg", workers=2, timeout=600, xmx="2g",
+                 env={"VERIF_SEED": run.seed})
+    if r.ok or f"Invariant {inv} is violated" not in (r.error or ""):
+        raise core.ToolError(f"spec mutant {inv} was not refuted by TLC: step M has lost its teeth\n{r.out[-1500:]}")
+    return inv
+
+
 def gen_vectors(run, module, to_vector, nslices, name):
     """Step G in `nslices` parallel TLC processes; returns the list of vector files and
     the vectors' coverage counters.  to_vector(row) -> dict for the harness."""
@@ -92,9 +101,9 @@ def replay_and_validate(run, binmode, trace_module, vec_paths, name):
 
 
 def to_vector04(row):
-    f, x, L, M, yz0, xz0, yz1, xz1, sb, nt = row
+    f, x, L, M, yz0, xz0, yz1, xz1, sb, nt, nl0, nl1 = row
     return {"id": f * 10**8 + x, "fam": FAMS[f], "L": L, "M": M, "yz0": yz0, "xz0": xz0,
-            "yz1": yz1, "xz1": xz1, "sb": sb, "nt": nt}
+            "yz1": yz1, "xz1": xz1, "sb": sb, "nt": nt, "nl0": nl0, "nl1": nl1}
 
 
 def explain04(ev, why):
@@ -112,6 +121,7 @@ def check(run, vec_paths=None):
     m = core.tlc_ok("mc/MC_CPR", cfg=cfg_for("mc/MC_CPR", tier), workers=par(run), timeout=3000, xmx="3g",
                     env={"VERIF_SEED": run.seed})
     run.add_tlc(m)
+    run.cov["spec_mutant_refuted"] = spec_mutant("GlobalNoBand", run)
     # G
     vec_cov = Counter()
     nvec = 0
@@ -119,18 +129,27 @@ def check(run, vec_paths=None):
         nslices = 4 if tier == "quick" else 16
         vec_paths, gres = gen_vectors(run, "gen/Gen_CPR04", to_vector04, nslices, "c04")
         seen = set()
+        bands, straddled = set(), set()
         for vecs, r in gres:
             run.add_tlc(r)
             for v in vecs:
                 nvec += 1
                 vec_cov["fam_" + v["fam"]] += 1
+                hemi = v["L"] < 0
                 if not v["sb"]:
                     vec_cov["different_band"] += 1
+                    straddled.add((hemi, min(v["nl0"], v["nl1"])))
+                else:
+                    bands.add((hemi, v["nl0"]))
                 if v["nt"]:
                     vec_cov["near_threshold"] += 1
                 if v["id"] // 10**8 in STRUCTURAL:
                     seen.add((v["L"], v["M"]))
         vec_cov["distinct_structural_positions"] = len(seen)
+        # 58 transitions x 2 hemispheres: a point whose even and odd reports straddle it;
+        # 59 bands x 2 hemispheres: a point with both reports inside the band
+        vec_cov["transitions_straddled"] = len(straddled)
+        vec_cov["bands_with_same_band_points"] = len(bands)
     # replay + V
     out = replay_and_validate(run, "c04", "trace/Trace_CPR04", vec_paths, "c04")
     n_events, outcomes, samples = 0, Counter(), []
@@ -146,6 +165,8 @@ def check(run, vec_paths=None):
             run.report({"check": "global", "why": w}, explain04(ev, w))
         if events and len(samples) < 3:
             samples.append(events[len(events) // 3])
+    if nvec and n_events != nvec:
+        raise core.ToolError(f"harness dropped vectors: {nvec} generated, {n_events} recorded")
     run.cov.update({
         "exhaustive": False,
         "evaluations": n_events,
@@ -156,6 +177,8 @@ def check(run, vec_paths=None):
         "rejected_events": sum(len(w) for _, w, _ in out),
         "vectors_per_family": {k[4:]: v for k, v in sorted(vec_cov.items()) if k.startswith("fam_")},
         "vectors_different_band": vec_cov.get("different_band", 0),
+        "nl_transitions_straddled": vec_cov.get("transitions_straddled", 0),
+        "nl_bands_with_same_band_points": vec_cov.get("bands_with_same_band_points", 0),
         "vectors_near_threshold": vec_cov.get("near_threshold", 0),
         "outcomes": dict(outcomes),
         "mc_states": m.distinct,
@@ -167,9 +190,13 @@ def check(run, vec_paths=None):
                 "transition latitudes x 2 hemispheres (every lattice point within +-DENSE, then multi-scale "
                 "steps of 16/256/4096), all 60 latitude-zone edges, both poles, the equator, the 0/+-180 "
                 "meridians in each of the 59 NL bands, and the lattice points at every longitude-zone edge "
-                "of every zone count (every LESTRIDE-th edge in the quick tier). SAMPLED: the stratified "
+                "of every zone count. SAMPLED: the stratified "
                 "sweep and the seeded random points (interior of zones), and the longitude attached to a "
-                "structural latitude. distinct_nontrivial = distinct (L, M) in the structural families.",
+                "structural latitude. distinct_nontrivial = distinct (L, M) in the structural families. "
+                "nl_transitions_straddled = transitions (of 58 x 2 hemispheres) for which a lattice point exists "
+                "whose even and odd reports fall in different bands (every lattice point within +-DENSE of each "
+                "transition is enumerated, so the others have no such lattice point); "
+                "nl_bands_with_same_band_points = bands (of 59 x 2) with a tested point whose reports agree.",
     })
     run.assumptions += [
         "positions are quantised to the lattice u = 360/2^24 degrees (2.39 m); between lattice points nothing is claimed",
